@@ -13,7 +13,9 @@ TRUSTED = [
 ]
 ASSUMPTIONS = [
     "the recurrence yields a finite strictly increasing sequence (C01 for rrule, C10 for rruleset); infinite rules are outside C12's statement",
-    "replace(): proved on C01's constructor model (replace = construct(origArgs (+) kw), replace() = r); tied to the code by query.replace from the "
+    "replace(): the method itself is TRANSLATED from the source on every run (harness/translate_replace.py -> Gen.replaceProgram; replace_eq_construct_partial; "
+    "validated by query.replace_gen); the `_original_rule` bookkeeping of rrule.__init__ is the hand model RRule.origArgs (C01). "
+    "Proved on C01's constructor model (replace = construct(origArgs (+) kw), replace() = r); tied to the code by query.replace from the "
     "ORIGINAL constructor arguments; the literal bysetpos=() is excluded from replace_nothing_id (stored as (), not recorded, rebuilt as None)",
     "datetimes are mapped to integers (seconds since 2020-01-01) order-isomorphically; comparison of datetimes is CPython's",
 ]
@@ -519,6 +521,9 @@ def corr_replace(ctx, rng):
         exp.append(out)
         if c["kind"] == "naive" and not c.get("until_isdate"):
             reqs.append("query.replace_rec %s %s" % (" ".join(recorded_wire(r, c["kind"])), " ".join(kwt)))
+            exp.append(out)
+            # … and through the program translated from the source of rrule.replace (Gen.replaceProgram)
+            reqs.append("query.replace_gen %s %s" % (" ".join(recorded_wire(r, c["kind"])), " ".join(kwt)))
             exp.append(out)
         ctx.count("replace_keys_%d" % len(keys))
         for k in keys:
